@@ -606,14 +606,16 @@ class StaticResource(PrefixResource):
         norm_path = os.path.normpath(path)
         if IS_WINDOWS:
             norm_path = norm_path.replace("\\", "/")
-        if not norm_path.startswith(self._prefix2) and norm_path != self._prefix:
+        # The prefix is stored quoted, while the path to match is not.
+        prefix = _path_safe(self._prefix)
+        if not norm_path.startswith(prefix + "/") and norm_path != prefix:
             return None, set()
 
         allowed_methods = self._allowed_methods
         if method not in allowed_methods:
             return None, allowed_methods
 
-        match_dict = {"filename": _unquote_path_safe(path[len(self._prefix) + 1 :])}
+        match_dict = {"filename": _unquote_path_safe(path[len(prefix) + 1 :])}
         return (UrlMappingMatchInfo(match_dict, self._routes[method]), allowed_methods)
 
     def __len__(self) -> int:
@@ -690,7 +692,7 @@ class StaticResource(PrefixResource):
         for _file in sorted(dir_index):
             # show file url as relative to static path
             rel_path = _file.relative_to(self._directory).as_posix()
-            quoted_file_url = _quote_path(f"{self._prefix}/{rel_path}")
+            quoted_file_url = self._prefix + _quote_path(f"/{rel_path}")
 
             # if file is a directory, add '/' to the end of the name
             if _file.is_dir():
@@ -1093,7 +1095,8 @@ class UrlDispatcher(AbstractRouter, Mapping[str, AbstractResource]):
             # the index key will be `/core` since index is based on the
             # url parts split by `/`
             index_key = index_key.partition("{")[0].rpartition("/")[0]
-        return index_key.rstrip("/") or "/"
+        # The index is looked up by parts of URL.path_safe
+        return _path_safe(index_key.rstrip("/") or "/")
 
     def index_resource(self, resource: AbstractResource) -> None:
         """Add a resource to the resource index."""
@@ -1245,6 +1248,13 @@ def _unquote_path_safe(value: str) -> str:
     if "%" not in value:
         return value
     return value.replace("%2F", "/").replace("%25", "%")
+
+
+def _path_safe(value: str) -> str:
+    # Convert a quoted path into the form of URL.path_safe
+    if "%" not in value:
+        return value
+    return URL.build(path=value, encoded=True).path_safe
 
 
 def _requote_path(value: str) -> str:
